@@ -552,6 +552,8 @@ public:
             s.intermediate = ps.canReportIntermediateSolutions;
             for (auto &kv : p->params().getParams())
                 s.params[kv.first] = kv.second->getRangeSuggestion();
+            if (info.multilevel)
+                s.recognizedGoal = (int)ob::GOAL_SAMPLEABLE_REGION;  // only goal state(s) can be projected onto the lower levels
             g_specs[info.name] = s;
         }
     }
@@ -633,6 +635,14 @@ public:
         plan["queries"] = qs;
         double L = G.world.getd("hi") - G.world.getd("lo");
         plan["params"] = genParams(g, planner, sp, L);
+        if (auto *pi = planners::findGeometric(planner))
+            if (pi->multilevel)
+            {
+                // two levels (positions first, then the full space) where the library can guess the projection
+                std::string sp_ = G.world.gets("space");
+                bool can = sp_ == "se2" || sp_ == "se3" || (sp_ == "rv" && G.world.geti("dim", 2) > G.world.geti("pdim", 2));
+                plan["levels"] = (can && g.chance(0.7)) ? 2L : 1L;
+            }
         static const char *nns[] = {"", "", "gnat", "gnat_nts", "linear", "sqrt"};
         plan["nn"] = g.pick(nns);
         plan["ompl_seed"] = (long)g.range(1, 2000000000);
@@ -693,10 +703,11 @@ public:
             }
         }
         Json ops = Json::array();
-        if (o.prop == "C03" && planner == "LazyLBTRRT" && j >= 4)
+        bool brokenEverywhere = planner == "LazyLBTRRT" || (planners::findGeometric(planner) && planners::findGeometric(planner)->multilevel);
+        if (o.prop == "C03" && brokenEverywhere && j >= 4)
         {
-            // known-broken planner (known_findings.json): its hangs would eat the budget of the enumeration, so it is
-            // sampled at k = 0..3 only
+            // known-broken planners (known_findings.json: LazyLBTRRT, the multilevel planners): their failures would eat the
+            // budget of the enumeration, so they are sampled at k = 0..3 only
             plan["ops"] = ops;
             return plan;
         }
@@ -831,8 +842,9 @@ public:
 
     std::string crashContext(const Json &plan) const override
     {
-        return " planner=" + plan.gets("planner");
+        return " planner=" + plan.gets("planner") + mlContextOf(plan);
     }
+    static std::string mlContextOf(const Json &plan);
     bool judgesCrashes(const sim::Options &o) const override
     {
         return o.prop == "C03" || o.prop == "C19" || o.prop == "C17";  // "does not crash" is C03's clause (C19-B: its threaded planners); C01/C04 judge what solve() reports
@@ -855,10 +867,10 @@ public:
         std::string pl = plan.gets("planner");
         r.info["live_states_at_exit"] = e["live_states"];
         if (e.geti("bad_frees") > 0)
-            r.violate("C03.free-of-non-live-state planner=" + pl,
+            r.violate("C03.free-of-non-live-state planner=" + pl + mlContextOf(plan),
                       fmt("%ld frees of states that were not live (double free / foreign state)", (long)e.geti("bad_frees")));
         if (e.geti("live_states") > 0)
-            r.violate("C03.state-leak planner=" + pl,
+            r.violate("C03.state-leak planner=" + pl + mlContextOf(plan),
                       fmt("%ld of %ld allocated states still live at process exit, after all destructors ran",
                           (long)e.geti("live_states"), (long)e.geti("allocs")));
     }
@@ -1002,10 +1014,28 @@ namespace
         static sim::Options o;
         return o;
     }
+    // multilevel planners: the class names the configuration family too (levels, single / several goal states), so that a
+    // recorded finding about one family does not cover another
+    std::string mlContext(const Json &plan)
+    {
+        if (!plan.has("levels"))
+            return "";
+        bool multi = false;
+        for (auto &q : plan["queries"].items())
+            multi = multi || q["goal"].gets("type") == "states";
+        return fmt(" levels=%ld goals=%s", (long)plan.geti("levels", 1), multi ? "several" : "one");
+    }
     std::string sfx(const Ctx &c)
     {
-        return " planner=" + c.planner;
+        return " planner=" + c.planner + mlContext(c.plan);
     }
+}  // namespace
+std::string PlanSim::mlContextOf(const Json &plan)
+{
+    return mlContext(plan);
+}
+namespace
+{
 
     // C01 path oracle on one solution
     void judgePath(Ctx &c, const world::Query &q, const ob::PlannerSolution &sol, const std::string &when)
@@ -1360,7 +1390,21 @@ sim::CaseResult PlanSim::run(const sim::Options &o, const Json &plan)
             if (ob2)
                 qs.back()->pdef->setOptimizationObjective(ob2);
         }
-        auto planner = planners::makeGeometric(c.planner, c.w->si);
+        world::WorldPtr lowWorld;  // multilevel: the positional level (same obstacles), owned here, outlives the planner
+        ob::PlannerPtr planner;
+        if (c.info->multilevel && plan.geti("levels", 1) == 2)
+        {
+            Json ld = plan["world"];
+            ld["space"] = "rv";
+            ld["dim"] = plan["world"].gets("space") == "se3" ? 3L : (plan["world"].gets("space") == "se2" ? 2L : (long)plan["world"].geti("pdim", 2));
+            ld["pdim"] = ld["dim"];
+            lowWorld = world::build(ld);
+            std::vector<ob::SpaceInformationPtr> siVec{lowWorld->si, c.w->si};
+            planner = planners::makeMultilevel(c.planner, siVec);
+            res.probes["multilevel-two-levels"]++;
+        }
+        else
+            planner = planners::makeGeometric(c.planner, c.w->si);
         for (auto &kv : plan["params"].members())
         {
             planner->params().setParam(kv.first, kv.second.s());
@@ -1547,7 +1591,7 @@ sim::CaseResult PlanSim::run(const sim::Options &o, const Json &plan)
                         std::string key;
                         for (char ch : msg.substr(0, 60))
                             key += (isalnum((unsigned char)ch) ? ch : '_');
-                        res.violate(P + ".exception-from-solve" + sfx(c) + " what=" + key, when + ": ompl::Exception: " + msg);
+                        res.violate(P + ".exception-from-solve planner=" + c.planner + " what=" + key + mlContext(c.plan), when + ": ompl::Exception: " + msg);
                         break;
                     }
                     res.probes["solve-refused-configuration(ompl::Exception)"]++;
